@@ -249,6 +249,9 @@ def run(src, tier, seed):
     res.extra['functions'] = len(fx.F)
     import fmtrule
     fmtrule.format_rule(fx, res)
+    import astshape
+    astshape.shape_rule(fx, res, src)
+    template_arity_rule(fx, res)
     return res
 
 
@@ -404,10 +407,12 @@ class NonEmpty(Client):
                     self.accesses.append((n.get('ln'), rp, m, self.minsize(s, rp) >= 1))
                 elif isinstance(idx, dict) and idx.get('k') == 'lit':
                     self.accesses.append((n.get('ln'), rp, '[%s]' % idx.get('v'), self.minsize(s, rp) > idx.get('v')))
-        for a in n.get('a') or []:
+        for i_, a in enumerate(n.get('a') or []):
             pa = path_of(a)
-            if pa in self.locs and not callee(n).startswith('std::'):
-                s = self.setmin(s, pa, 0)
+            pt = ((n.get('pt') or []) + [''] * 8)[i_]
+            by_const_ref_or_value = ('const ' in pt and pt.rstrip().endswith('&') and not pt.rstrip().endswith('&&')) or (pt and '&' not in pt)
+            if pa in self.locs and not callee(n).startswith('std::') and not by_const_ref_or_value:
+                s = self.setmin(s, pa, 0)        # handed over by mutable reference or moved from: nothing is known afterwards
         return (s,)
 
 
@@ -440,6 +445,60 @@ def frontend_rules(fx, res):
                 res.bad(r, 'possibly-empty:%s:%s' % (f['name'].split('::')[-1], name), fx.loc(f, ln), '%s reads %s%s on a path on which nothing guarantees that the vector is non-empty '
                         '(it is filled only conditionally / in a loop that may not run, and no rejecting size test precedes): out-of-bounds read on such input'
                         % (f['name'], name, how if how.startswith('[') else '.' + how + '()'))
+
+    # ---- F1b the arity gate: functions reachable from term parsing that compare the size of an argument-vector parameter with a non-literal quantity handle
+    # argument lists of arbitrary length (this is where the user's arity arrives); a literal index into that parameter needs an established lower bound
+    r = res.rule('arity-gate-bounds', 'a function reachable from Interpret::parseTerm that compares the size of a vector parameter with a non-literal value (it accepts argument lists of any '
+                 'length) indexes that parameter with a literal only where a size test on the same path makes the index valid; assert(...) does not count', floor=1)
+    root = fx.func('opensmt::Interpret::parseTerm')
+    n_gate = 0
+    for fid in sorted(reachable(fx, [root['id']])):
+        f = fx.F.get(fid)
+        if not f or not f.get('body'):
+            continue
+        params = {p_['n'] for p_ in f['params'] if any(m in p_['t'] for m in ('vec<', 'vector<'))}
+        if not params:
+            continue
+
+        def size_of(e, p_):
+            return isinstance(e, dict) and e.get('k') == 'call' and mname(e) in ('size', 'size_') and path_of(e.get('recv')) == p_
+
+        generic = set()
+        for g in walk(f['body']):
+            if g.get('k') != 'if' or g.get('as'):
+                continue
+            for c in [see_through(g['cond'])] + list(walk(g['cond'])):
+                if isinstance(c, dict) and c.get('op') in ('==', '!=', '<', '<=', '>', '>='):
+                    l_, r_ = (c.get('l'), c.get('r')) if c.get('k') == 'bin' else ((c.get('recv'), (c.get('a') or [None])[0]) if c.get('recv') is not None else tuple(((c.get('a') or []) + [None, None])[:2]))
+                    l_, r_ = see_through(l_) if l_ is not None else None, see_through(r_) if r_ is not None else None
+                    for p_ in params:
+                        for x, y in ((l_, r_), (r_, l_)):
+                            if size_of(x, p_) and isinstance(y, dict) and y.get('k') != 'lit':
+                                generic.add(p_)
+        if not generic:
+            continue
+        cand = [x for x in fwalk(f) if x.get('k') == 'call' and not x.get('as') and x.get('recv') is not None and path_of(x['recv']) in generic and x.get('op') == '[]' and x.get('a')
+                and isinstance(see_through(x['a'][0]), dict) and see_through(x['a'][0]).get('k') == 'lit']
+        if not cand:
+            continue
+        n_gate += 1
+        c = NonEmpty(generic)
+        eng = Engine(f, c)
+        eng.run([frozenset()])
+        if eng.broken:
+            raise AnalysisBroken('%s: %s' % (f['name'], eng.broken))
+        by_site = {}
+        for ln, name, how, known in c.accesses:
+            by_site[(ln, name, how)] = by_site.get((ln, name, how), True) and known
+        for (ln, name, how), known in sorted(by_site.items()):
+            if known:
+                res.ok(r, '%s: %s%s' % (fx.loc(f, ln), name, how))
+            else:
+                res.bad(r, 'index-beyond-arity:%s:%s' % (f['name'].split('::')[-1], name), fx.loc(f, ln), '%s accepts argument lists of any length (it compares %s.size() with the arity of a '
+                        'candidate) and reads %s%s on a path on which no size test makes that index valid: an application with fewer arguments, such as an operator used as a constant, '
+                        'reads out of bounds' % (f['name'].replace('opensmt::', ''), name, name, how))
+    if n_gate == 0:
+        raise AnalysisBroken('arity-gate-bounds: no arity-generic function with a literal index found (anchor: PtStore::lookupSymbol)')
 
     # ---- F2 options that decide what is built at construction time cannot be changed afterwards
     r = res.rule('construction-options-frozen', 'an option that decides whether a solver component is allocated (pointer member allocated under a configuration accessor in a constructor / initialize) '
@@ -566,3 +625,42 @@ def frontend_rules(fx, res):
         else:
             res.bad(r, 'null-text-streamed:%s' % f['name'].split('::')[-1], fx.loc(f), '%s writes ASTNode::getValue() to std::cout without testing it for null: a composite node '
                     '(e.g. (as x Int) inside get-value) makes std::cout unusable and every later response is lost, with exit status 0' % f['name'])
+
+
+def template_arity_rule(fx, res):
+    """Logic::instantiateFunctionTemplate is the only place where the use of a defined function is checked against its signature (Interpret::resolveTerm).
+    It is evaluated abstractly for every pair (number of formal parameters, number of actual arguments) in {0,1,2} x {0,1,2}."""
+    import itertools
+    from boolctor import Interp, Unmodelled, Thrown
+    r = res.rule('template-arity-checked', 'Logic::instantiateFunctionTemplate, evaluated for 0-2 formal parameters against 0-2 arguments, throws exactly when the counts differ (and for a sort '
+                 'mismatch) and otherwise returns the body / the instantiated body', floor=9)
+    f = fx.func('opensmt::Logic::instantiateFunctionTemplate')
+    try:
+        for k, m in itertools.product(range(3), repeat=2):
+            it = Interp(fx, f, '?', {})
+            targs = [('formal', i) for i in range(k)]
+            args = [('actual', i) for i in range(m)]
+            it.oracle = {'getArgs': lambda i, a, n, targs=targs: targs, 'getBody': lambda i, a, n: ('body',), 'getSortRef': lambda i, a, n: ('sort',), 'insert': lambda i, a, n: None,
+                         'rewrite': lambda i, a, n: ('inst',), 'getRetSort': lambda i, a, n: ('sort',)}
+            try:
+                out = it.run_env({f['params'][0]['n']: ('tmpl',), f['params'][1]['n']: args})
+            except Thrown:
+                out = 'throws'
+            if (out == 'throws') == (k != m):
+                res.ok(r, '%d parameter(s), %d argument(s): %s' % (k, m, out if out == 'throws' else 'instantiated'))
+            elif out != 'throws':
+                res.bad(r, 'template-arity-unchecked', fx.loc(f), 'Logic::instantiateFunctionTemplate accepts %d argument(s) for a definition with %d parameter(s) and returns %s: an ill-formed '
+                        'application of a defined function is silently accepted (no error response, exit status 0) and answered' % (m, k, 'the body unchanged' if out == ('body',) else out))
+            else:
+                res.bad(r, 'template-arity-rejected', fx.loc(f), 'Logic::instantiateFunctionTemplate rejects a well-formed application (%d parameter(s), %d argument(s))' % (k, m))
+        # sort mismatch with matching counts
+        it = Interp(fx, f, '?', {})
+        it.oracle = {'getArgs': lambda i, a, n: [('formal', 0)], 'getBody': lambda i, a, n: ('body',), 'getSortRef': lambda i, a, n: ('sort', a[-1][0]), 'insert': lambda i, a, n: None,
+                     'rewrite': lambda i, a, n: ('inst',), 'getRetSort': lambda i, a, n: ('sort',)}
+        try:
+            it.run_env({f['params'][0]['n']: ('tmpl',), f['params'][1]['n']: [('actual', 0)]})
+            res.bad(r, 'template-sort-unchecked', fx.loc(f), 'Logic::instantiateFunctionTemplate accepts an argument whose sort differs from the parameter\'s')
+        except Thrown:
+            res.ok(r, 'argument of another sort: throws')
+    except Unmodelled as e:
+        raise AnalysisBroken('Logic::instantiateFunctionTemplate is outside the modelled subset: %s' % e)
